@@ -251,6 +251,42 @@ theorem latest_value_counts_everything (bi : Nat) (batches : List (List TSample)
       o.value = some (Dbl.fdiv (Dbl.ofNat (sumOps (fedUpTo batches k))) iv) :=
   valueSpec_latest (value_is_prefix_rate bi batches hc t ht k outs hk o ho) hl
 
+/-- **The transport is a cutting.** Samplers accept, workers ship (a shipment drains the worker's samplers completely),
+    messages are delivered (per worker in order), the driver post-processes — in ANY interleaving: the records written are those
+    of the post-processor over the batches the runs cut (`store_records_per_task` applies), and these batches together with
+    what is still queued, in flight or buffered are exactly the accepted samples, each once. -/
+theorem transport_is_a_cutting (evs : List TEvent) :
+    trecords .empty evs = (postprocessAll [] (tbatches .empty evs)).2 ∧
+    ((tbatches .empty evs).flatten ++ (tfinal .empty evs).held).Perm (acceptedOf evs) := by
+  refine ⟨(transport_records evs .empty).1, ?_⟩
+  simpa [TState.held, TState.empty] using transport_perm evs .empty
+
+/-- **End to end over the transport.** For every interleaving of sampling, shipping, delivery and post-processing, on any number
+    of workers, and every task `k` whose throughput is calculated: operations counted + carried over + still held somewhere
+    between a sampler and the calculator = operations of the samples the samplers accepted for `k`. -/
+theorem transport_counts_every_operation_once (evs : List TEvent) (k : Nat)
+    (hcomp : ∀ s ∈ samplesOf k (acceptedOf evs), s.tput = none)
+    (t : TaskStats) (ht : lookupStats k (tfinal .empty evs).stats = some t) :
+    t.total + sumOps t.unprocessed + sumOps (samplesOf k (tfinal .empty evs).held) = sumOps (samplesOf k (acceptedOf evs)) := by
+  have hperm := samplesOf_perm k (transport_is_a_cutting evs).2
+  rw [samplesOf_append, samplesOf_flatten] at hperm
+  have hc : Computed ((tbatches .empty evs).map (samplesOf k)) := by
+    intro b hb s hs
+    apply hcomp s
+    exact hperm.subset (List.mem_append_left _ (List.mem_flatten.mpr ⟨b, hb, hs⟩))
+  rw [(transport_records evs .empty).2] at ht
+  have hst : (TState.empty).stats = [] := rfl
+  rw [hst, (postprocessAll_task k (tbatches .empty evs) []).1] at ht
+  have h := ops_conserved_sum 1 _ hc t ht
+  rw [← sumOps_perm hperm, sumOps_append, ← h]
+
+/-- non-vacuity: two workers, a message overtaken by a post-processing run, one sample still in a sampler at the end -/
+example : (trecords .empty [.accept 0 (7, wS (201/2) (1/2)), .ship 0, .accept 1 (7, wS (805/8) (5/8)), .ship 1, .deliver 1,
+      .postProcess, .deliver 0, .accept 0 (7, wS 101 1), .ship 0, .deliver 0, .postProcess, .accept 1 (7, wS 102 2)]).map
+        (fun c => c.map (fun ko => ko.2.value)) = [[some 16], [some 30]] ∧
+    (tfinal .empty [.accept 0 (7, wS (201/2) (1/2)), .ship 0, .accept 1 (7, wS 102 2)]).held.length = 2 := by
+  decide +kernel
+
 /-- **A failing metrics store.** `Driver.post_process_samples` lets the store's error pass: the race is aborted.  What the
     aborted race has written is, run by run, what the healthy race writes, the run hit by the fault being cut short
     (a prefix of its records) and nothing coming after it.  Sections 1–3 hold for every record that was written. -/
